@@ -26,7 +26,7 @@ use std::collections::HashMap;
 pub static INFO: PropInfo = PropInfo {
     id: "C13",
     run,
-    rule: "inputs: the trees of C12 - (a) every expression tree of depth <= 2 over {0, 1, -1, 2, 0.5, 2i, pi, %x, %y, m[0]} (1.69 M trees, enumerated completely in both tiers), (b) random trees up to depth 6 over dyadic literals, pi, 4 variables and 5 memory cells in 4 regions, (c) random trees up to depth 5 whose variable names and region names are drawn from one shared pool {x, theta, m, q_1} with indices folded to 0..2, so that %theta, theta[0] and theta[2] meet in one expression - each with all its partial assignments (every variable bound/unbound x every region absent or of length 0..=max index+1) x every subset of bound variables substituted instead of bound; complete when <= 200 combinations, otherwise 200 sampled ones incl. the full and the empty assignment. Every substitution map additionally binds each region name of the expression that is not one of its variables (decoy keys: a region is not a variable whatever it is called). distinct = distinct tree; non-trivial = the tree has at least one free name (variable or memory reference).",
+    rule: "inputs: the trees of C12 - (a) every expression tree of depth <= 2 over {0, 1, -1, 2, 0.5, 2i, pi, %x, %y, m[0]} (1.69 M trees, enumerated completely in both tiers), (b) random trees up to depth 6 over dyadic literals, pi, 4 variables and 5 memory cells in 4 regions, (c) random trees up to depth 5 whose variable names and region names are drawn from one shared pool {x, theta, m, q_1} with indices folded to 0..2, so that %theta, theta[0] and theta[2] meet in one expression - each with all its partial assignments (every variable bound/unbound x every region absent or of length 0..=max index+1) x every subset of bound variables substituted instead of bound; complete when <= 200 combinations, otherwise 200 sampled ones incl. the full and the empty assignment. While a substitution runs, another live expression holds the mirror image of the substituted tree (operands of every infix node swapped): expressions are interned process-wide and the neighbours must not matter. Every substitution map additionally binds each region name of the expression that is not one of its variables (decoy keys: a region is not a variable whatever it is called). distinct = distinct tree; non-trivial = the tree has at least one free name (variable or memory reference).",
     assumptions: &[
         "memory_references() is compared as a set with the tree walk (multiset/order agreement is recorded, not asserted)",
         "only Ok-vs-Err of evaluate is asserted for incomplete assignments, not which EvaluationError is returned",
@@ -41,6 +41,7 @@ pub static INFO: PropInfo = PropInfo {
         "workload:random-depth6",
         "workload:colliding-names",
         "substitute:decoy-key-named-like-a-region",
+        "substitute:with-live-mirror-image-neighbour",
         "evaluate:ok-as-expected",
         "evaluate:incomplete-as-expected:variable-unbound",
         "evaluate:incomplete-as-expected:region-absent",
@@ -143,6 +144,7 @@ fn check_tree(ctx: &mut Ctx, tree: &Tree, env: &Env, workload: &str) {
         }
     }
 
+    let has_infix = tree_has_infix(tree);
     // enumerate partial assignments x substituted subsets
     let nv = vars.len();
     let region_choices: Vec<usize> = regions.iter().map(|(_, m)| *m as usize + 3).collect(); // absent, 0..=m+1
@@ -221,6 +223,7 @@ fn check_tree(ctx: &mut Ctx, tree: &Tree, env: &Env, workload: &str) {
         let mut direct_vars: HashMap<String, C> = HashMap::new();
         let mut sub_vars: HashMap<String, C> = HashMap::new();
         let mut subst: HashMap<String, Expression> = HashMap::new();
+        let mut subst_values: HashMap<String, C> = HashMap::new();
         for (k, v) in vars.iter().enumerate() {
             let val = env.var(v).unwrap_or(C::new(0.77 + (hash_of(v) % 16) as f64 / 32.0, 0.0));
             match states[k] {
@@ -231,6 +234,7 @@ fn check_tree(ctx: &mut Ctx, tree: &Tree, env: &Env, workload: &str) {
                 2 => {
                     direct_vars.insert(v.clone(), val);
                     subst.insert(v.clone(), Expression::Number(val));
+                    subst_values.insert(v.clone(), val);
                 }
                 _ => {}
             }
@@ -299,6 +303,16 @@ fn check_tree(ctx: &mut Ctx, tree: &Tree, env: &Env, workload: &str) {
         }
         // (i)
         if states.iter().any(|s| *s == 2) {
+            // Hostile neighbour: expressions are interned in a process-wide table, so while the
+            // substitution runs another live expression holds the *mirror image* of the
+            // substituted tree (same leaves, operands of every infix node swapped).  What else
+            // is alive in the process must not influence the result.
+            let _neighbour = if has_infix {
+                ctx.count("substitute:with-live-mirror-image-neighbour");
+                Some(mirror_substituted(tree, &subst_values).to_expression())
+            } else {
+                None
+            };
             let via = guarded(|| {
                 let s = expr.substitute_variables(&subst);
                 let r = s.evaluate(&sub_vars, &mem);
@@ -381,6 +395,29 @@ fn run(ctx: &mut Ctx) {
         if ctx.done() {
             return;
         }
+    }
+}
+
+fn tree_has_infix(t: &Tree) -> bool {
+    match t {
+        Tree::Inf(..) => true,
+        Tree::Fun(_, a) | Tree::Pre(_, a) => tree_has_infix(a),
+        _ => false,
+    }
+}
+
+/// `t` with the variables in `values` replaced by their numbers and the operands of every infix
+/// node swapped.
+fn mirror_substituted(t: &Tree, values: &HashMap<String, C>) -> Tree {
+    match t {
+        Tree::Var(n) => match values.get(n) {
+            Some(v) => Tree::Num(v.re, v.im),
+            None => t.clone(),
+        },
+        Tree::Fun(f, a) => Tree::Fun(*f, Box::new(mirror_substituted(a, values))),
+        Tree::Pre(o, a) => Tree::Pre(*o, Box::new(mirror_substituted(a, values))),
+        Tree::Inf(l, o, r) => Tree::Inf(Box::new(mirror_substituted(r, values)), *o, Box::new(mirror_substituted(l, values))),
+        other => other.clone(),
     }
 }
 
